@@ -27,6 +27,14 @@ CLAIMED = {
             "Proof: for every history of fragment deliveries with non-empty slices and every Buffer/Ignore policy, the invocations of the model equal the specification (all bytes of the current NAL so far, complete iff this delivery ended it, silence after Ignore and for empty NALs), the end of a NAL restores the initial state, and a never-ignored non-empty NAL gets exactly one complete invocation. Tied to push::NalAccumulator by all histories <= 4 deliveries x all policies plus random long ones; an independent Python oracle replays the property text.",
             "Trusted: Coq kernel; precondition of nal_fragment (non-empty slices) as stated by the trait.",
             "DESIGN.md 5 C08"),
+    "C01": ("Coq refinement proof: per-push invariant (model = byte-at-a-time abstract machine), fold over pieces, abstract machine + reset = whole-stream start-code segmentation; differential execution on all short streams x all partitions",
+            "Proof: for every list of pushed pieces (empty ones included) the calls made by the model, followed by reset, deliver exactly segment(concat pieces) - the Annex B segmentation written as a function of the whole stream - with nothing left open; and without reset any two partitions of one stream leave the same state and the same delivered units/open bytes. The model makes the same calls with the same slices as annexb.rs (raw traces compared on every run: all streams <= 6 bytes over {00,01,02} x all partitions, longer sampled, grammar streams to 8 KiB); an independent Python segmentation oracle is evaluated on the implementation's own units.",
+            "Trusted: Coq kernel; slices-as-lists abstraction ((fake,start) carried as (fake, buf[start..i])), memchr as per-byte steps - both exercised by the raw-trace comparison.",
+            "DESIGN.md 5 C01, Appendix A.1"),
+    "C18": ("Coq proof over all operation sequences (call shape lemma for maybe_emit/reset, reset = initial state, end count = number of units via the C01 refinement) + differential execution with resets at every cut",
+            "Proof: every call made by any sequence of pushes/resets from any state passes only non-empty slices and is slice-less only with end=true; reset outside a unit makes no call; reset returns the reader to its initial state (the only cross-call memory), so later behaviour equals a new reader's; a reset-terminated section makes exactly as many end calls as its stream has units. Tied to annexb.rs by raw-trace equality on all streams <= 5 bytes x all partitions x resets at every cut, replayed against a fresh reader.",
+            "Trusted: as C01.",
+            "DESIGN.md 5 C18"),
 }
 
 PENDING_REASON = "not claimed yet in this revision: model and theorems for this layer are still being built (see DESIGN.md section 9 for the order of work)"
